@@ -34,7 +34,10 @@ LEVEL_TEXT = ("Lean 4 theorems over a transliteration of dask/blockwise.py's coo
               "(retries/priority >= every input, resources per key >=, workers subset of every input, allow_other_workers "
               "implies every input's), `fresh_names_distinct` (in the transliterated index bookkeeping of rewrite_blockwise — "
               "live-list for-loop, substitution dicts, one name supply — the generator names given to the contracted indices "
-              "of all fused producers are pairwise distinct: sibling contraction layers never share a contracted index). "
+              "of all fused producers are pairwise distinct: sibling contraction layers never share a contracted index), "
+              "`rewrite_coord_sound` (+`_contracted`: per index, the coordinate the fused layer hands an input of a fused "
+              "producer equals the coordinate the producer would use for the block the consumer reads, under numblocks "
+              "consistency). "
               "Fusion VALUES (`rewrite_blockwise`/`optimize_blockwise`) are validated, not proved: the fused index table of "
               "every rewrite_blockwise call is diffed against the model, fused and unfused graphs are evaluated on random "
               "stacks (incl. a stream of consumers of sibling contraction producers with unequal block counts, diamonds) and "
